@@ -131,8 +131,9 @@ class G:
             if depth < 2 and x < 0.2:
                 kids.append(self.div(depth + 1))
             elif x < 0.27:
-                kids.append(["elem", self.ws(0.5), r.choice(["metadata", "set", "foo"]), self.rtag(DIV_EXTRA[3:], r.choice([0, 1])),
-                             [self.p()] if r.random() < 0.5 else [], self.ws(0.8)])
+                # <metadata> / <set>: children of a <div> that hold no paragraph
+                kids.append(["elem", self.ws(0.5), r.choice(["metadata", "set"]), self.rtag(DIV_EXTRA[3:], r.choice([0, 1])),
+                             [], self.ws(0.8)])
             else:
                 kids.append(self.p())
         return ["div", self.ws(0.4), l1, lang, l2, self.ws(0.7), kids, self.ws(0.8)]
@@ -149,10 +150,7 @@ class G:
         top = []
         if r.random() < 0.85:
             top.append(head)
-        if r.random() < 0.85:
-            top.append(["elem", self.ws(0.5), "body", self.rtag(DIV_EXTRA[:2], r.choice([0, 0, 1])), body, self.ws(0.8)])
-        else:
-            top.extend(body)
+        top.append(["elem", self.ws(0.5), "body", self.rtag(DIV_EXTRA[:2], r.choice([0, 0, 1])), body, self.ws(0.8)])
         l1, lang, l2, tl = self.lang_parts(TT_EXTRA, [None, None, "en", "fr", "de-AT"])
         pi = None
         if r.random() < 0.7:
